@@ -208,6 +208,22 @@ pub fn run(ctx: &Ctx) -> i32 {
         st.count("blank_and_cluster_repeat_cases");
         check_case(ctx, st, &det[i % det.len()], Settings::new(if i < det.len() { REP } else { REP | NOSTART }));
     });
+    // medium-sized inputs: many / long test cases, many distinct symbols, long repeats, deep prefix chains
+    {
+        let n = if ctx.thorough { 2500 } else { 150 };
+        let names = ["ws", "meta", "mixed", "astral"];
+        let als: Vec<Vec<String>> = names.iter().map(|a| gen::alphabet(a)).collect();
+        par_for(&ctx.run, n, |i, st| {
+            let mut rng = Rng::new(seed, 0x61_0000 + i as u64);
+            let tcs = gen::medium_family(&mut rng, &als[i % als.len()]);
+            let tcs: Vec<String> = tcs.into_iter().filter(|t| !t.is_empty()).collect();
+            if tcs.is_empty() {
+                return;
+            }
+            st.count("medium_sized_inputs");
+            check_case(ctx, st, &tcs, Settings::new(if i % 3 == 0 { REP } else { 0 }));
+        });
+    }
     let n = if ctx.thorough { 80_000 } else { 4_000 };
     let names = ["ws", "meta", "mixed", "graph", "astral", "ab", "case", "classes", "sgr", "clusters"];
     let alphabets: Vec<(String, Vec<String>)> = names.iter().map(|a| (a.to_string(), gen::alphabet(a))).collect();
